@@ -118,13 +118,13 @@ def sampler_config(draw, kinds=ALL_KINDS, bounds="maybe", max_d=4, temps=(1.0, 1
 LONG_RUNS = [300, 500, 1000, 1024, 1500, 2500, 4200, 5000]
 
 
-def maybe_long(draw, size, cfg, one_in=16):
+def maybe_long(draw, size, cfg, one_in=16, sizes=None):
     """Now and then a run far longer than the small sizes: internal buffers, growing check intervals, update
     schedules and histories pass points that short runs never reach (thousands of stored rows).  Sized by
     what a step of that sampler costs."""
     if draw(st.integers(0, one_in - 1)) != 0:
         return size
-    m = draw(st.sampled_from(LONG_RUNS))
+    m = draw(st.sampled_from(sizes or LONG_RUNS))
     kind = cfg["kind"]
     if kind == "hmc":
         m = min(m, 300 if cfg["knobs"].get("finite_diff") else 6600 // max(1, int(cfg["knobs"].get("steps", 6))))
@@ -333,6 +333,10 @@ def op_step(h):
 
 def op_advance(h, m):
     per = h.n_walkers if h.is_ensemble else 1
+    if m * per >= 1000:
+        rctx.get().stats["probe_single_run_of_1000_or_more_rows"] += 1
+    if h.d >= 5:
+        rctx.get().stats["probe_advance_with_5_or_more_parameters"] += 1
     try:
         _budgeted(h, m * per, lambda: lib_call("advance(%d)" % m, _guard_hmc, h.chain.advance, m))
     except StepExhausted as e:
